@@ -4,8 +4,9 @@
    M(X⁻¹) is the two-sided matrix inverse; M(Identity) = I; hom(act X p) = M X × hom p;
    associativity, neutrality and two-sided inverse on coefficient vectors.
    Stated for every threshold 0 < eps (the library's eps is one instance). *)
-From Coq Require Import Reals List Lra.
-From Manif Require Import Scalar Mat Group RInst Generic LieSpec SO2 SE2 SO3 SE3 SE23 SGal3 Rn SE2Proofs SO3Proofs SE23Proofs RnProofs.
+From Coq Require Import Reals List Lra Lia.
+From Manif Require Import Scalar Mat Group RInst Generic LieSpec SO2 SE2 SO3 SE3 SE23 SGal3 Rn SE2Proofs SO3Proofs SE23Proofs RnProofs
+  Bundle BundleLaws BundleInst BundleCore.
 Import ListNotations.
 Local Open Scope R_scope.
 
@@ -57,5 +58,35 @@ Proof.
   - exists (2/7), (3/7), (6/7), 0; split; [reflexivity|unfold n4; lra].
   - exists 1, 2, 3, (-1/2), (1/2), (-1/2), (-1/2); split; [reflexivity|unfold n4; lra].
   - exists 1, 2, 3, (-1/2), (1/2), (-1/2), (-1/2), 4, 5, 6; split; [reflexivity|unfold n4; lra].
+  - exists 1, 2, 3, (2/7), (3/7), (6/7), 0, 4, 5, 6, 9; split; [reflexivity|unfold n4; lra].
+Qed.
+
+(* ---- Bundles ("and bundles of them"): for ANY list of element groups, each with the GroupCore proved above (packs:
+   BundleInst.v / BundleCore.v), the Bundle of Bundle.v — written as impl/bundle/* is: offset tables, element views, pack
+   expansion — satisfies the group laws on coefficient vectors and its transform() (the block-diagonal matrix of the
+   elements' homogeneous matrices) is multiplicative, maps Identity() to I and inverse() to the two-sided matrix inverse.
+   Valid Bundle elements are the concatenations of valid element coefficient vectors. *)
+Definition bundle_valid (LM : list PackedM) (dM : PackedM) : list R -> Prop :=
+  bvalid RS (map p_G (map m_pack LM)) (fun i X => gc_valid (p_core (nth i (map m_pack LM) (m_pack dM))) X).
+Theorem C01_Bundle (LM : list PackedM) (dM : PackedM) :
+  BundleMatrixLaws (Bundle (map p_G (map m_pack LM))) (bundle_valid LM dM).
+Proof. exact (bundle_matrix_laws LM dM). Qed.
+Print Assumptions C01_Bundle.
+
+(* one of the layouts the correspondence runs (harness layout 100): Bundle<SO2, SE3, R5, SGal3> *)
+Definition layout100 eps (H : 0 < eps) : list PackedM := [SO2_packM eps H; SE3_packM eps H; R5_packM; SGal3_packM eps H].
+Theorem C01_Bundle_layout100 eps (H : 0 < eps) :
+  BundleMatrixLaws (Bundle [SO2 RS eps; SE3 RS eps; Rn RS 5; SGal3 RS eps]) (bundle_valid (layout100 eps H) R1_packM).
+Proof. exact (bundle_matrix_laws (layout100 eps H) R1_packM). Qed.
+Example C01_Bundle_nonvacuous eps (H : 0 < eps) :
+  bundle_valid (layout100 eps H) R1_packM
+    ([3/5; 4/5] ++ [1; 2; 3; -1/2; 1/2; -1/2; -1/2] ++ [1; 2; 3; 4; 5] ++ [1; 2; 3; 2/7; 3/7; 6/7; 0; 4; 5; 6; 9]).
+Proof.
+  exists [[3/5; 4/5]; [1; 2; 3; -1/2; 1/2; -1/2; -1/2]; [1; 2; 3; 4; 5]; [1; 2; 3; 2/7; 3/7; 6/7; 0; 4; 5; 6; 9]].
+  split; [|reflexivity]. split; [reflexivity|]. intros i Hi. cbn [length map layout100] in Hi.
+  destruct i as [|[|[|[|i]]]]; [| | | |exfalso; lia]; cbn.
+  - exists (3/5), (4/5); split; [reflexivity|lra].
+  - exists 1, 2, 3, (-1/2), (1/2), (-1/2), (-1/2); split; [reflexivity|unfold n4; lra].
+  - reflexivity.
   - exists 1, 2, 3, (2/7), (3/7), (6/7), 0, 4, 5, 6, 9; split; [reflexivity|unfold n4; lra].
 Qed.
